@@ -10,6 +10,7 @@
 import os, sys, re, json, subprocess, shutil, time, argparse
 
 HERE = os.path.dirname(os.path.abspath(__file__))
+BASE = HERE
 
 def sh(cmd, cwd=None, env=None, timeout=3000):
     e = dict(os.environ); e.update(env or {})
@@ -55,11 +56,14 @@ def classify(out):
     return "FAILING-INPUT", (" ; ".join(vio) + " " + detail)[:600]
 
 def main():
+    global HERE
     ap = argparse.ArgumentParser()
     ap.add_argument("--repo", required=True); ap.add_argument("--verif", default=os.path.dirname(os.path.dirname(HERE)))
     ap.add_argument("--mode", default="fast"); ap.add_argument("--tests", action="store_true")     # mode: fast | check | none
     ap.add_argument("--only", default=""); ap.add_argument("--out", default="")
+    ap.add_argument("--set", default="")                      # "negative": tools/rewrites/negative/ (every entry must be reported)
     a = ap.parse_args()
+    if a.set: HERE = os.path.join(BASE, a.set)
     repo, verif = os.path.abspath(a.repo), os.path.abspath(a.verif)
     snap = repo.rstrip("/") + ".pristine-src"
     if not os.path.isdir(snap): shutil.copytree(os.path.join(repo, "src"), snap)
@@ -78,8 +82,9 @@ def main():
         try:
             if a.tests:
                 rc, out = sh("cargo test --offline 2>&1", cwd=repo, timeout=1200)
-                m = re.search(r"test result: ok\. (\d+) passed; 0 failed", out)
-                r["tests"] = ("ok %s" % m.group(1)) if (rc == 0 and m) else ("FAILED: " + out[-1500:])
+                npass = sum(int(x) for x in re.findall(r"test result: \w+\. (\d+) passed", out))
+                nfail = sum(int(x) for x in re.findall(r"test result: \w+\. \d+ passed; (\d+) failed", out))
+                r["tests"] = ("ok %d" % npass) if (rc == 0 and nfail == 0) else ("FAILED (%d passed, %d failed)" % (npass, nfail))
             if a.mode == "fast":
                 rc, out = sh("python3-vt -c '%s'" % FAST.replace("'", "'\"'\"'"), cwd=verif, env=env)
                 m = re.search(r"@@(\{.*\})", out)
